@@ -1,5 +1,6 @@
 import Fundraising.Proofs.EscrowProofs
 import Fundraising.Proofs.WFProofs
+import Fundraising.Proofs.ModuleInvProofs
 /-
   C01 — Escrow accounts always hold exactly what the module's records owe.
 
@@ -34,6 +35,23 @@ theorem C01_escrow_exact (ops : List Op) (h : NoEscrowGifts ops) : AllExact (run
       exact ⟨exact_step _ op hw hop he, wf_step _ op hw⟩
   exact (key ops h).1
 
+/-- what the induction over reachable states carries: coverage, well-formedness, non-negative balances -/
+theorem C01_reach_facts (st : State) (h : Reach st) : AllCovered st.core ∧ WF st.core ∧ BankNonneg st.core := by
+  revert st h
+  refine reach_induction (P := fun st => AllCovered st.core ∧ WF st.core ∧ BankNonneg st.core) ?_ ?_
+  · exact ⟨covered_init, wf_init, bankNonneg_init⟩
+  · intro st op _ ⟨hc, hw, hn⟩
+    exact ⟨covered_step st op hw hn hc, wf_step st op hw, bankNonneg_step st op hn hw⟩
+
+/-- **C01, the module's own invariants.**  The three invariants the module registers with the
+    crisis module (keeper/invariants.go: selling / paying / vesting pool reserve amount — modelled
+    in Model/ModuleInv.lean, proved equal to the translated Go functions in Proofs/Tie/Invariants,
+    and run on the real keeper after every operation by the harness) are never broken: in EVERY
+    reachable state, whatever third parties have sent to the escrows. -/
+theorem C01_module_invariants_hold (st : State) (h : Reach st) : allInvariantsBroken st.core = false := by
+  obtain ⟨hc, hw, hn⟩ := C01_reach_facts st h
+  exact invariants_of_covered st.core hw hc hn
+
 /-- **C01, with third-party transfers.**  In EVERY reachable state every escrow covers what
     the records owe (third-party coins can only add to a balance). -/
 theorem C01_escrow_covered (st : State) (h : Reach st) : AllCovered st.core := by
@@ -67,5 +85,8 @@ def exOps : List Op :=
 example : NoEscrowGifts exOps := by intro op h; simp [exOps] at h; rcases h with h|h|h|h|h|h|h <;> subst h <;> rfl
 example : ((run {} exOps).core.views[0]?.map (fun v => (v.a.status, owedPay v, owedSell v))) =
     some (.started, 100, 1000) := by decide
+/-- the invariants are not vacuous there: the paying invariant compares 100 reserved with 100 held -/
+example : ((run {} exOps).core.views[0]?.map (fun v => (invTotalBid v, (run {} exOps).core.bank (.pay 0) 1))) =
+    some (100, 100) := by decide
 
 end Fundraising
